@@ -147,14 +147,15 @@ func r01_6(c *Ctx) {
 					}
 					return isNotDigitPredicate(pf)
 				})
-				if !ok || k != -1 {
+				if !ok {
 					continue
 				}
+				// the result is -1 (no offending rune) or an index >= 0: the edge on which it is known to be -1
 				var e int
-				switch op {
-				case token.EQL:
+				switch {
+				case (op == token.EQL && k == -1) || (op == token.LSS && k == 0) || (op == token.LEQ && k == -1):
 					e = succ
-				case token.NEQ:
+				case (op == token.NEQ && k == -1) || (op == token.GEQ && k == 0) || (op == token.GTR && k == -1):
 					e = 1 - succ
 				default:
 					continue
@@ -1222,6 +1223,18 @@ func r01_8(c *Ctx) {
 						continue
 					}
 					cnd := decodeIf(ifi)
+					if cnd.Y == nil {
+						// strings.HasPrefix(c, " "): true = starts with a space, false = empty or another first byte
+						if hp, isHP := isStaticCall(cnd.X, "strings.HasPrefix"); isHP && hp.Call.Args[0] == ssa.Value(p0) {
+							if k, isK := constString(hp.Call.Args[1]); isK && k == " " {
+								if e.Idx == cnd.succWhen(true) {
+									firstIsSpace = true
+								} else {
+									firstNotSpace = true
+								}
+							}
+						}
+					}
 					if cnd.Y != nil && (cnd.Op == token.EQL || cnd.Op == token.NEQ) {
 						if k, isK := constInt(cnd.Y); isK && k == ' ' {
 							var x, ix ssa.Value
@@ -1272,6 +1285,48 @@ func r01_8(c *Ctx) {
 			}
 		}
 		c.check(good && sliceRet && sameRet, "parser.trimFirstSpace", P.pos(tf.Pos()), "removes exactly one leading space when present, nothing otherwise", "trimFirstSpace does not remove exactly one leading U+0020 (when present): field values gain or lose spaces ("+why+")")
+	}
+	// every accepted line sets both parts of the result: the caller reuses one Field for the whole stream, so a
+	// path that reports a field without storing its value (or name) hands out the previous line's
+	if len(ss.Params) == 3 {
+		out := ss.Params[2]
+		paths, okP := abstractPaths(ss, 4096, nil)
+		if !okP || len(paths) == 0 {
+			c.undecided(fnLabel(ss)+":accepted-sets-name-and-value", P.pos(ss.Pos()), "too many paths")
+		} else {
+			badAt := ""
+			for _, p := range paths {
+				if p.Ret == nil || len(p.Ret.Results) != 1 {
+					continue
+				}
+				if b, isC := constBool(p.St.resolve(p.Ret.Results[0])); isC && !b {
+					continue
+				}
+				setN, setV := false, false
+				for _, in := range p.Instrs {
+					st, ok := in.(*ssa.Store)
+					if !ok {
+						continue
+					}
+					if st.Addr == ssa.Value(out) {
+						setN, setV = true, true
+					}
+					if fa, ok := st.Addr.(*ssa.FieldAddr); ok && fa.X == ssa.Value(out) {
+						switch fa.Field {
+						case 0:
+							setN = true
+						case 1:
+							setV = true
+						}
+					}
+				}
+				if !setN || !setV {
+					badAt = P.ipos(p.Ret)
+				}
+			}
+			c.check(badAt == "", fnLabel(ss)+":accepted-sets-name-and-value", P.pos(ss.Pos()), "every path that accepts a line stores both Field.Name and Field.Value",
+				"a path that accepts a line (return at "+badAt+") does not store both Field.Name and Field.Value: the Field is reused by the caller, so the previous line's name or value is delivered with this one (a line without a colon, e.g. `data`, repeats the last value)")
+		}
 	}
 	// colon position: strings.IndexByte(chunk, ':')
 	var colon *ssa.Call
@@ -1795,6 +1850,141 @@ func r01_9(c *Ctx, part string) {
 			}
 		}
 		c.check(good, fnLabel(nx)+":bom-once", P.pos(nx.Pos()), "once a token was started BOM removal is disabled before the next token is installed; Reset receives the scanner's token", "the stream parser does not disable BOM removal after the first token (or Reset does not get the scanner's token): a BOM at the start of a later event is stripped")
+	}
+	bomOnlyAtStreamStart(c)
+}
+
+// bomOnlyAtStreamStart: the BOM is stripped from the first token. When splitFunc can hand out a token that
+// does not begin where the consumed input begins (it skips blank lines in front of an event), the first
+// token is not necessarily the start of the stream, so the scanner's split function must switch BOM
+// removal off whenever bytes were skipped (len(token) < advance).
+func bomOnlyAtStreamStart(c *Ctx) {
+	P := c.P
+	sf := P.Fn("parser.splitFunc")
+	nw := P.Fn("parser.New")
+	if sf == nil || nw == nil {
+		return // the anchors are reported by the obligations above / R20.1
+	}
+	name := "parser:bom-only-at-stream-start"
+	late := false
+	for _, r := range returnsOf(sf) {
+		if len(r.Results) != 3 {
+			continue
+		}
+		for _, src := range sources(r.Results[1]) {
+			switch t := src.(type) {
+			case *ssa.Const:
+			case *ssa.Slice:
+				if t.Low != nil {
+					if k, isK := constInt(t.Low); !isK || k != 0 {
+						late = true
+					}
+				}
+			case *ssa.Parameter:
+			default:
+				late = true
+			}
+		}
+	}
+	if !late {
+		c.ok(name, P.pos(sf.Pos()), "every token begins where the consumed input begins, so the first token is the start of the stream")
+		return
+	}
+	// the split function installed by New
+	var installed ssa.Value
+	eachInstrDeep(nw, func(in ssa.Instruction) {
+		if call, ok := isStaticCall(in, "(*bufio.Scanner).Split"); ok {
+			installed = call.Call.Args[1]
+		}
+	})
+	var w *ssa.Function
+	if installed != nil {
+		v := stripConvAll(installed)
+		if mc, ok := v.(*ssa.MakeClosure); ok {
+			v = mc.Fn
+		}
+		w, _ = v.(*ssa.Function)
+		if t := boundMethodTarget(w); t != nil {
+			w = t // `p.split` passed as a method value
+		}
+	}
+	det := "splitFunc skips blank lines in front of an event, so the first token need not be the start of the stream, and nothing switches BOM removal off when bytes were skipped: a BOM that follows leading blank lines is stripped although it is not at the start of the stream"
+	hist := "failing input: \"\\n\\n\\uFEFFdata: x\\n\\n\" yields the event {Data: x}; the WHATWG algorithm treats \\uFEFFdata as an unknown field and dispatches nothing"
+	if w == nil || w == sf {
+		c.bad(name, P.pos(nw.Pos()), det, hist)
+		return
+	}
+	call := splitForwardCall(P, w)
+	if call == nil {
+		c.undecided(name, P.pos(w.Pos()), "the installed split function is neither splitFunc nor a wrapper that forwards its results")
+		return
+	}
+	isTokLen := func(v ssa.Value) bool {
+		lc, ok := v.(*ssa.Call)
+		if !ok {
+			return false
+		}
+		b, ok := lc.Call.Value.(*ssa.Builtin)
+		if !ok || b.Name() != "len" {
+			return false
+		}
+		e, ok := lc.Call.Args[0].(*ssa.Extract)
+		return ok && e.Tuple == ssa.Value(call) && e.Index == 1
+	}
+	isAdv := func(v ssa.Value) bool {
+		e, ok := v.(*ssa.Extract)
+		return ok && e.Tuple == ssa.Value(call) && e.Index == 0
+	}
+	good := false
+	eachInstr(w, func(in ssa.Instruction) {
+		off := false
+		if rb, ok := isModCall(in, "(*parser.FieldParser).RemoveBOM"); ok {
+			if b, isC := constBool(rb.Call.Args[1]); isC && !b {
+				off = true
+			}
+		}
+		if st, ok := in.(*ssa.Store); ok {
+			if _, ok := isFieldSel(st.Addr, "parser.FieldParser", "removeBOM"); ok {
+				if b, isC := constBool(st.Val); isC && !b {
+					off = true
+				}
+			}
+		}
+		if !off {
+			return
+		}
+		for _, ifi := range ifsInOnly(w) {
+			cnd := decodeIf(ifi)
+			if cnd.Y == nil {
+				continue
+			}
+			op, x, y := cnd.Op, cnd.X, cnd.Y
+			if isAdv(x) && isTokLen(y) {
+				op, x, y = flipOp(op), y, x
+			}
+			if !isTokLen(x) || !isAdv(y) {
+				continue
+			}
+			// len(token) <= advance always: "bytes were skipped" is len < advance, i.e. len != advance
+			var e int
+			switch op {
+			case token.LSS, token.NEQ:
+				e = cnd.succWhen(true)
+			case token.GEQ, token.EQL:
+				e = cnd.succWhen(false)
+			default:
+				continue
+			}
+			// switched off exactly when bytes were skipped: on that edge, and not reachable from the other one
+			if edgeDominates(ifi.Block(), e, in.Block()) {
+				good = true
+			}
+		}
+	})
+	if good {
+		c.ok(name, P.pos(w.Pos()), "the installed split function switches BOM removal off whenever splitFunc skipped bytes in front of the token (len(token) < advance)")
+	} else {
+		c.bad(name, P.pos(w.Pos()), det, hist)
 	}
 }
 
